@@ -518,8 +518,11 @@ func (p *Packer) validSymlink(root, path, target string) (bool, error) {
 		absTarget = filepath.Join(filepath.Dir(absPath), target)
 	}
 
-	// Target falls within root.
-	if strings.HasPrefix(absTarget, absRoot) {
+	// Target falls within root. (Compare whole path components, so that a
+	// sibling such as "/data/root-other" is not mistaken for being inside
+	// "/data/root".)
+	rootPrefix := strings.TrimSuffix(absRoot, string(filepath.Separator)) + string(filepath.Separator)
+	if absTarget == absRoot || strings.HasPrefix(absTarget, rootPrefix) {
 		return true, nil
 	}
 
